@@ -3,6 +3,7 @@
 
 import functools
 import itertools
+import math
 import numbers
 import typing
 import warnings
@@ -1145,11 +1146,18 @@ def _reduce_unrelated_vars(op, arg, reduced_vars):
                 for v in factor_vars
                 if v.dtype != "real"
             ],
+            1,
         )
-        for add_op, mul_op in ops.DISTRIBUTIVE_OPS:
-            if add_op is op:
-                arg = mul_op(arg, multiplicity).reduce(op, reduced_vars)
-                return arg, None
+        if op in (ops.max, ops.min, ops.and_, ops.or_):
+            # Idempotent ops are unaffected by repetition.
+            return arg.reduce(op, reduced_vars), None
+        if op in ops.PRODUCT_TO_POWER:
+            # Repeated addition is multiplication, repeated multiplication is power.
+            arg = ops.PRODUCT_TO_POWER[op](arg, multiplicity)
+            return arg.reduce(op, reduced_vars), None
+        if op is ops.logaddexp:
+            arg = arg + math.log(multiplicity)
+            return arg.reduce(op, reduced_vars), None
         raise NotImplementedError(f"Cannot reduce {op}")
     return arg, frozenset(v.name for v in reduced_vars)
 
